@@ -34,7 +34,7 @@ where
     }
 
     pub fn clear(&mut self) {
-        self.root_mut().take();
+        drop_iteratively(self.root_mut().take());
         self.size = 0;
     }
 
@@ -389,6 +389,30 @@ impl<K, V> DoubleEndedIterator for IntoIter<K, V> {
 }
 
 impl<K, V> ExactSizeIterator for IntoIter<K, V> {}
+
+impl<K, V> Drop for IntoIter<K, V> {
+    fn drop(&mut self) {
+        drop_iteratively(self.cur.take());
+    }
+}
+
+/// Frees a (sub)tree without recursion. Dropping a `Box<Node>` directly recurses once per
+/// tree level, and a splay tree filled in sorted order is a list, so the plain drop overflows
+/// the stack for large trees. Instead the tree is flattened by right rotations (the same
+/// technique `IntoIter::next` uses) and nodes are freed once they have no children left.
+fn drop_iteratively<K, V>(root: Option<Box<Node<K, V>>>) {
+    let mut cur = root;
+    while let Some(mut node) = cur {
+        cur = match node.pop_left() {
+            Some(mut left) => {
+                node.left = left.pop_right();
+                left.right = Some(node);
+                Some(left)
+            }
+            None => node.pop_right(),
+        };
+    }
+}
 
 /// Performs a top-down splay operation on a tree rooted at `node`. This will
 /// modify the pointer to contain the new root of the tree once the splay
